@@ -515,7 +515,9 @@ Proof.
       * apply same_ok; [exact Ho|apply ret_good; assumption].
       * apply same_ok; [exact Ho|]. apply goto_good; [|exact Hf]. cbn. split; assumption.
   - (* RemoveAll: the parent is locked *)
-    destruct Hp as [Hd Hb]. destruct (k_is_dir h c) eqn:Ed.
+    destruct Hp as [Hd Hb].
+    match goal with |- step_ok h (if ?b then _ else _) => destruct b end; [apply same_ok; [exact Ho|apply ret_good; assumption]|].
+    destruct (k_is_dir h c) eqn:Ed.
     + apply same_ok; [exact Ho|]. apply goto_good; [|exact Hf]. cbn. exact (conj Hd (conj Hb Ed)).
     + destruct (remove_child_inv d nm Ho) as [Ho1 G1].
       apply changed_ok; [exact Ho1|exact G1|]. apply goto_good; [|exact Hf].
